@@ -138,7 +138,7 @@ func init() {
 
 	// ---- go-metrics registry: one instance per name, per path
 	reg("github.com/Dieterbe/go-metrics.GetOrRegister", func(fr *frame, args []value) value {
-		name := mustConcStr(args[0])
+		name := args[0].(Str).String() // symbolic names are keyed by their term rendering
 		if v, ok := E.registry[name]; ok {
 			return v
 		}
@@ -210,3 +210,22 @@ func (e *Engine) clockAdvance() {
 }
 
 var _ = ssa.NaiveForm
+
+func callPkgFunc(fr *frame, pkgPath, name string, args []value) value {
+	p := E.prog.ImportedPackage(pkgPath)
+	if p == nil {
+		E.inconclusive("package " + pkgPath + " not loaded")
+	}
+	f := p.Func(name)
+	if f == nil {
+		E.inconclusive("no function " + pkgPath + "." + name)
+	}
+	return callSSA(fr, 0, f, args, nil)
+}
+
+func init() {
+	// assembly kernels with a pure-Go twin in the same package
+	reg("crypto/md5.block", func(fr *frame, args []value) value {
+		return callPkgFunc(fr, "crypto/md5", "blockGeneric", args)
+	})
+}
